@@ -118,6 +118,11 @@ inductive Out where
 def drain (u : Nat) (pfx : Bytes) (kvs : List KV) : Option (List Item) :=
   kvs.mapM fun kv => iterValue u pfx kv.1 kv.2
 
+/-- dao.go:994-1000 `getKeyBuf` in a private DAO (every invocation's DAO is private): the key buffer has
+capacity 1 + 4 + limits.MaxStorageKeyLen and `makeStorageItemKey` slices it to `5 + len(key)`: a key or
+prefix of more than 64 bytes panics ("slice bounds out of range"), the VM faults. -/
+def keyBufOverflow (key : Bytes) : Bool := key.length > 64
+
 /-- find.go:93-135 + draining the iterator with Next/Value to the end. `seekAsync` is the DAO's
     store; `sp` = dao.Version.StoragePrefix; `id` = uint32(contract id). -/
 def find (seekAsync : SeekRange → List KV) (sp : UInt8) (id : Nat) (pfx : Bytes) (opts : Int) : Out :=
@@ -125,6 +130,8 @@ def find (seekAsync : SeekRange → List KV) (sp : UInt8) (id : Nat) (pfx : Byte
   match checkOpts u with
   | some i => .invalid i
   | none =>
+    if keyBufOverflow pfx then .fault        -- dao.SeekAsync -> makeStorageItemKey (after the option checks)
+    else
     let rng : SeekRange :=
       { pfx := storageKey sp id pfx, start := [], bw := has u FindOpts.findBackwards, depth := 0 }
     match drain u pfx (seekAsync rng) with
